@@ -7,7 +7,7 @@
    well-formedness, Spec.dec_nested), it is stable under extension of the parent, and the vtable cache never hands out a
    vtable outside the memory emitted so far. *)
 From Flatcc.Format Require Import Schema Spec SpecProofs.
-From Flatcc.Builder Require Import EmitModel VMem Objects Leaves OffVec TableLayout Table Buffer.
+From Flatcc.Builder Require Import EmitModel VMem Objects Leaves OffVec TableLayout Table Buffer EmbedBuffer.
 Local Open Scope Z_scope.
 
 (* A nested buffer that decodes inside its parent keeps decoding - in the memory restricted to its own vector - when the
@@ -52,6 +52,67 @@ Theorem C15_nested_header_partial : forall n Sc st id b_align root align flags R
      decode_root n Sc R false ext = Some v).
 Proof. exact create_buffer_nested. Qed.
 Print Assumptions C15_nested_header_partial.
+
+(* Embedding existing bytes (flatcc_builder_embed_buffer), one call, at ANY depth >= 1: whenever a frame is open
+   (level > 0) - in particular directly inside the open top-level buffer, where the nest id is 0 - the call makes exactly one
+   emitter call, at the front: ubyte vector length (bytes + padding), the bytes, padding. The bytes start 4 above the
+   returned reference, at a multiple of al = max(align, 4, block alignment) in the builder's address space (with the
+   with_size flag the length word itself is at that multiple: it doubles as the size prefix), min_align is raised to al
+   (the enclosing buffers keep the maximum) and the parent's end is left alone.  Before
+   fixes/C15-embed-buffer-inside-top-level-buffer.patch the C code tested nest_id != 0 instead and the statement failed at
+   depth 1 (no length word, end of the parent padded). *)
+Theorem C15_embed_buffer_nested : forall st b_align data align flags ref es st',
+  st_ok st -> ma_ok st -> pow2 align -> balign_ok b_align -> balign_ok (block_align st) ->
+  0 < level st ->
+  embed_buffer st b_align data align flags = Some (ref, es, st') -> small st' ->
+  let al := embed_align st align b_align in
+  let ws := negb (Z.land flags 2 =? 0) in
+  exists pad, 0 <= pad < al /\
+    step st st' /\ pow2 al /\ 4 <= al /\ align <= al /\ al <= min_align st' /\
+    es = [{| em_off := ref; em_bytes := le32 (lenZ data + pad) ++ data ++ zeros pad |}] /\
+    e_start st' = ref /\ ref + 4 + lenZ data + pad = e_start st /\ e_end st' = e_end st /\ back st' = back st /\
+    front st' = le32 (lenZ data + pad) ++ data ++ zeros pad ++ front st /\
+    mrd32 (vmem st') ref = Some (lenZ data + pad) /\ mem_has (vmem st') (ref + 4) data /\
+    (if ws then ref else ref + 4) mod al = 0 /\ ref mod 4 = 0.
+Proof. exact embed_buffer_nested. Qed.
+Print Assumptions C15_embed_buffer_nested.
+
+(* every start_buffer opens a frame, so the hypothesis [0 < level st] holds inside every open buffer; for the first buffer
+   of a builder the nest id is 0 all the same (what the old test looked at) *)
+Theorem C15_embed_level_inside_buffer : forall st id ba fl,
+  level (start_buffer st id ba fl) = level st + 1 /\ 0 < level (start_buffer st id ba fl).
+Proof. exact level_start_buffer. Qed.
+Print Assumptions C15_embed_level_inside_buffer.
+
+Theorem C15_embed_first_buffer_nest_id : forall id ba fl,
+  nest_id (start_buffer init_state id ba fl) = 0 /\ is_top_buffer (start_buffer init_state id ba fl) = true.
+Proof. exact nest_id_first_buffer. Qed.
+Print Assumptions C15_embed_first_buffer_nest_id.
+
+(* Without a parent (level 0) - the documented top-level behaviour, unchanged: the end is padded first, then the bytes are
+   emitted as they are, no size field header, start at a multiple of al. *)
+Theorem C15_embed_buffer_no_parent : forall st b_align data align flags ref es st',
+  st_ok st -> ma_ok st -> cache_ok st -> pow2 align -> balign_ok b_align -> balign_ok (block_align st) ->
+  level st = 0 ->
+  embed_buffer st b_align data align flags = Some (ref, es, st') -> small st' ->
+  let al := embed_align st align b_align in
+  let ws := negb (Z.land flags 2 =? 0) in
+  exists pad, 0 <= pad < al /\
+    step st st' /\ pow2 al /\ 4 <= al /\ align <= al /\ al <= min_align st' /\
+    e_start st' = ref /\ ref + lenZ data + pad = e_start st /\ e_end st <= e_end st' < e_end st + al /\
+    mem_has (vmem st') ref data /\
+    (if ws then ref - 4 else ref) mod al = 0.
+Proof. exact embed_buffer_top. Qed.
+Print Assumptions C15_embed_buffer_no_parent.
+
+(* hypotheses satisfiable at depth 1: the replay of the fix (32 byte buffer with a 16-aligned struct root embedded directly
+   inside the top-level buffer: vector length 32 at -36, bytes at -32, the parent reports 16, nothing at the end) *)
+Theorem C15_embed_depth1_example :
+  nest_id ex_state = 0 /\ level ex_state = 1 /\ st_ok ex_state /\ ma_ok ex_state /\
+  exists st', embed_buffer ex_state 0 ex_data 16 0 = Some (-36, [{| em_off := -36; em_bytes := le32 32 ++ ex_data |}], st') /\
+              min_align st' = 16 /\ e_end st' = 0 /\ small st'.
+Proof. exact embed_depth1_example. Qed.
+Print Assumptions C15_embed_depth1_example.
 
 (* Full statements not yet proved (decided by checks/c15.py on every run):
    nested_self_contained : wt_script with a nested value n at field f -> the bytes nb of the ubyte vector satisfy
